@@ -68,6 +68,11 @@ def _dump(d):
     return clist([cpair(cbytes(e["k"]), clist([cbytes(v) for v in e["vs"]])) for e in d])
 
 
+def _drop_cr(l):
+    """bufio.ScanLines: one trailing CR does not belong to the line"""
+    return l[:-1] if l and l[-1] == 13 else l
+
+
 def to_coq(c):
     if c["kind"] == "line":
         t = c["line"][0] if c["line"] else 0
@@ -80,7 +85,7 @@ def to_coq(c):
     lite = bool(c.get("lite"))
     return "CFile %s %s %d %d %s %s %s %s %s %s %s %s %s %s" % (
         cbool(lite), cbool(c["v2"]), c["serial"], c["pre_serial"], cbool(c["wf"]),
-        "[]" if lite else clist([cbytes(l) for l in c["file"]]),
+        "[]" if lite else clist([cbytes(_drop_cr(l)) for l in c["file"]]),
         cbool(c["pre_err"] != ""), "[]" if lite else clist([cbytes(l) for l in c["pre"]]),
         cbool(c["orig_err"] != ""), _dump(c["orig"]),
         cbool(c["p_err"] != ""), _dump(c["pdump"]),
